@@ -4,6 +4,7 @@
   run of harness/props/c15.py).
 -/
 import Proofs.C15_Lemmas
+import Proofs.C15_Source
 
 namespace Atomman.C15
 set_option linter.unusedSimpArgs false
